@@ -80,7 +80,7 @@ func runMouse(cfg hx.Config, ch *simrt.Chooser, reps []mrep, text []string, cuts
 	}
 	var in []byte
 	var want []string
-	var strict []bool
+	var strict, noVWheel []bool
 	reAt := -1 // byte offset at which the application reconfigures the mouse
 	for i, r := range reps {
 		if pre.ReEnable > 0 && i == pre.ReEnable && !pre.Race && !pre.Burst {
@@ -93,6 +93,9 @@ func runMouse(cfg hx.Config, ch *simrt.Chooser, reps []mrep, text []string, cuts
 		}
 		want = append(want, mm.decode(r.Code, r.X, r.Y, rel))
 		strict = append(strict, mouseStrict(r.Code))
+		// xterm's codes 66 and 67 are the horizontal wheel: whatever mask
+		// they are given, it is not wheel-up or wheel-down
+		noVWheel = append(noVWheel, r.Code&64 != 0 && r.Code&3 >= 2)
 		if i < len(text) && text[i] != "" {
 			in = append(in, text[i]...)
 			for _, c := range text[i] {
@@ -105,6 +108,7 @@ func runMouse(cfg hx.Config, ch *simrt.Chooser, reps []mrep, text []string, cuts
 					want = append(want, runeDesc(c, 0))
 				}
 				strict = append(strict, true)
+				noVWheel = append(noVWheel, false)
 			}
 		}
 	}
@@ -220,6 +224,8 @@ func runMouse(cfg hx.Config, ch *simrt.Chooser, reps []mrep, text []string, cuts
 				mk("C12/pos", "event #%d: expected %s, delivered %s", i, want[i], got[i])
 			case wm != gm:
 				mk("C12/mod", "event #%d: expected %s, delivered %s", i, want[i], got[i])
+			case !strict[i] && noVWheel[i] && tcell.ButtonMask(gb)&(tcell.WheelUp|tcell.WheelDown) != 0:
+				mk("C12/button", "event #%d: a horizontal-wheel code was delivered as %s (a vertical wheel event)", i, got[i])
 			case wb != gb && strict[i]:
 				tag := "C12/button"
 				if wb == 0 {
@@ -313,6 +319,8 @@ func TestC12(t *testing.T) {
 					if eight {
 						// an 8-bit CSI is a single byte only in an 8-bit locale
 						cfg.Locale = "en_US.ISO8859-1"
+						// carried by LC_ALL, or by LC_CTYPE with another character set in LANG
+						cfg.LocaleVia = []int{0, 1, 5, 3}[code%4]
 					}
 					if cf != nil {
 						cfg.Term = cf.Case["term"].(string)
